@@ -57,6 +57,13 @@ def try_entries(d2):
             res[entry] = "returned"
         except Exception as e:
             res[entry] = "raised"
+            if entry == "to_proto":
+                # "they never return a package for such a design": not on a second attempt either
+                try:
+                    h.to_proto(built.top)
+                    res["to_proto(2nd attempt)"] = "returned"
+                except Exception:
+                    pass
     return res
 
 
